@@ -353,13 +353,20 @@ Definition action_sgn_init (ev : string) (p : payload) (req : request) : cbres :
   end.
 
 Definition task_valid (t : task_v) : bool :=
-  negb (tv_idlen t =? 0) && negb ((tv_paylen t =? 0) && (tv_end t <? tv_start t)).
+  (* tv_paylen: the payload's length, -1 for no payload at all (Go's nil: a baked range) *)
+  negb (tv_idlen t =? 0) && negb ((tv_paylen t <=? 0) && (tv_end t <? tv_start t)).
+(* the task names at least one message: it carries a payload, or its range is not empty *)
+Definition task_names (t : task_v) : bool :=
+  negb (tv_paylen t =? -1) || (tv_start t <? tv_end t).
+(* SigningBatchProposalStartRequest.Validate: every task well-formed, and the batch names a message *)
+Definition tasks_valid (tasks : list task_v) : bool :=
+  forallb task_valid tasks && existsb task_names tasks.
 
 Definition action_sgn_start (ev : string) (p : payload) (req : request) : cbres :=
   match req with
   | RStart batch pid created tasks src =>
       if N.eqb batch 0 || (match tasks with [] => true | _ => false end) || (pid <? 0) ||
-         is_zero_time created || negb (forallb task_valid tasks) then CbErr p else
+         is_zero_time created || negb (tasks_valid tasks) then CbErr p else
       match p_sgn p, p_dkg p with
       | Some g, Some d =>
           let q := qmap (fun x => {| gp_name := dp_name x; gp_status := SgnAwait; gp_signs := [];
